@@ -19,6 +19,8 @@ WSV_CONTRACT = [
      '(self->quote_style_ == quote_style_kind_all || self->quote_style_ == quote_style_kind_nonnumeric) ==> (vx_quote_before && vx_quote_after)'),
     ('ensures', '[C18] quote style minimal: a field containing the delimiter, the quote character, CR or LF is always enclosed in quote characters',
      '(self->quote_style_ == quote_style_kind_minimal && (spec_csv_needs_quotes(vx_in[vx_w], self->field_delimiter_) || vx_in[vx_w] == self->quote_char_)) ==> (vx_quote_before && vx_quote_after)'),
+    ('ensures', '[C18] quote style minimal: a field containing the quote-escape character is enclosed in quote characters too, because escape_string doubles that character and only a quoted field is un-escaped by the reader',
+     '(self->quote_style_ == quote_style_kind_minimal && vx_in[vx_w] == self->quote_escape_char_) ==> (vx_quote_before && vx_quote_after)'),
     ('ensures', '[C18] the quotes are balanced: an opening quote iff a closing quote', 'vx_quote_before == vx_quote_after'),
 ]
 SPECS = [
@@ -31,13 +33,15 @@ SPECS = [
              csig='void write_string_value(struct csv_encoder* self)', contract=WSV_CONTRACT,
              rules=[(r'const char\* s = value\.data\(\);', 'const char* s = vx_in;', 1),
                     (r'const std::size_t length = value\.length\(\);', 'const size_t length = vx_len;', 1),
-                    (r'std::char_traits<CharT>::find\(s, length, ([^)]+)\) != nullptr', r'vx_find(\1)', 4),
+                    (r'std::char_traits<CharT>::find\(s, length, ([^)]+)\) != nullptr', r'vx_find(\1)', 1, 8),
+                    # variants of the same test over a set of characters (an option string)
+                    (r'value\.find_first_of\(string_view_type\((\w+)\.data\(\), \1\.size\(\)\)\) != string_view_type::npos', r'vx_find_set(self->\1, self->\1len)', 0, 4),
                     (r'quote_style_kind::(\w+)', r'quote_style_kind_\1', 3),
-                    (r'\b(quote_style_|field_delimiter_|quote_char_|quote_escape_char_)\b', r'self->\1', 8, 12),
+                    (r'(?<!>)\b(quote_style_|field_delimiter_|quote_char_|quote_escape_char_)\b', r'self->\1', 6, 14),
                     (r'str\.push_back\(', 'vx_push(', 2),
                     (r'escape_string\(s, length, self->quote_char_, self->quote_escape_char_, str\);', 'vx_escape_call();', 1)]),
 ]
 HARNESSES = [
     Harness('escape_string', 'h_escape', enforce='escape_string', loop_contracts=True, method='LC', props=['C18'], expect_classes={'loop_invariant_step': 1}),
-    Harness('write_string_value', 'h_wsv', enforce='write_string_value', method='LF', props=['C18']),
+    Harness('write_string_value', 'h_wsv', enforce='write_string_value', method='LF', props=['C18'], unwind=6),
 ]
